@@ -94,3 +94,18 @@ pub fn bad_selfcmp(a: &Ident, b: &Ident) -> std::cmp::Ordering {
 pub fn good_selfcmp(a: &Ident, b: &Ident) -> std::cmp::Ordering {
     a.id.cmp(&b.id).then_with(|| a.creation.cmp(&b.creation))
 }
+
+/// PANIC/char-boundary positive: byte 8 may fall inside a multi-byte character.
+pub fn bad_truncate(mut s: String) -> String {
+    if s.len() > 8 {
+        s.truncate(8);
+    }
+    s
+}
+
+pub fn good_truncate(mut s: String) -> String {
+    if s.is_char_boundary(8) {
+        s.truncate(8);
+    }
+    s
+}
